@@ -3,7 +3,8 @@ import json, os
 from .. import tlc, loaders
 from ..common import pool_map, chunks
 
-QUICK_CPS = [0, 8, 9, 11, 13, 14, 31, 32, 65, 126, 127, 128, 133, 159, 160, 233, 255, 256, 0x2028, 0xD800, 0xFFFD, 0xFFFF, 0x10000, 0x10FFFF]
+QUICK_CPS = [0, 1, 7, 8, 9, 11, 12, 13, 14, 26, 27, 28, 31, 32, 65, 126, 127, 128, 133, 159, 160, 173, 233, 255, 256, 0x200B, 0x2028, 0x2029, 0x3000, 0xD800,
+             0xFEFF, 0xFFFE, 0xFFFD, 0xFFFF, 0x10000, 0x10FFFF]     # incl. byte order mark, zero-width and other Unicode spaces, soft hyphen
 
 
 def _ranges(d):
